@@ -548,6 +548,9 @@ def make_fn(fs: FnState, flavour: str) -> Any:
             raise fs.exc  # type: ignore[misc]
         return async_tail(fail, args, kwargs)
 
+    if flavour == "notcallable":
+        # what a caller passes by mistake: using it fails with TypeError at the first use
+        return 5
     if flavour == "def":
         return sync_call
     if flavour == "async_def":
